@@ -34,6 +34,9 @@ type SyncSpec struct {
 	ForkMode     string `json:"forkmode,omitempty"`     // "" = both forks like the prefix (Full); "peerfull" = own fork by two validators, peer's fork by all (better although shorter)
 	NonValidator bool   `json:"nonvalidator,omitempty"` // the generator of the triggering block is not among the current validators handed to Sync
 	Batch        int    `json:"batch,omitempty"`        // the peer serves at most this many blocks per getBlocksFromID response (0 = up to the 103 cap); still honest
+	PeerCache    int    `json:"peercache,omitempty"`    // MaxBlockCache of the serving node (0 = default 515)
+	PeerRevert   int    `json:"peerrevert,omitempty"`   // the serving node built this many more blocks and removed them again before serving (a deep revert when >= PeerCache)
+	WithTxs      bool   `json:"withtxs,omitempty"`      // the peer's fork blocks carry transactions
 	SlowFirst    int    `json:"slowfirst,omitempty"`    // the peer answers its first SlowFirst getBlocksFromID requests after 300 ms each (a slow link that recovers); the sync is started so that the recovery falls just after a rate-limiter tick
 	Recent       bool   `json:"recent,omitempty"`       // genesis time such that the last block's slot is the current one (the finalized block is recent)
 	// third node: the SENDER of the block that triggers the sync is not the best peer. It shares the prefix and the first
@@ -135,7 +138,7 @@ func clone(b *blockchain.Block) *blockchain.Block {
 }
 
 // nextBlock builds a valid successor on n; when !full only the first two validators ever forge.
-func nextBlock(n *exh.Node, full bool, extraSkip int) *blockchain.Block {
+func nextBlock(n *exh.Node, full bool, extraSkip int, txs ...*blockchain.Transaction) *blockchain.Block {
 	skip := extraSkip
 	if !full {
 		for ; ; skip++ {
@@ -147,7 +150,7 @@ func nextBlock(n *exh.Node, full bool, extraSkip int) *blockchain.Block {
 			}
 		}
 	}
-	return n.NextValid(exh.Build{SkipSlots: skip})
+	return n.NextValid(exh.Build{SkipSlots: skip, Txs: txs})
 }
 
 func chainCodes(n *exh.Node, c *coder) []uint64 {
@@ -661,7 +664,7 @@ func buildChains(spec SyncSpec, cd *coder) (a, b, c *exh.Node, links, finat [][2
 	if err != nil {
 		return
 	}
-	b, err = exh.New(exh.Options{N: spec.N, GenesisTime: a.Opt.GenesisTime})
+	b, err = exh.New(exh.Options{N: spec.N, GenesisTime: a.Opt.GenesisTime, MaxBlockCache: spec.PeerCache})
 	if err != nil {
 		return
 	}
@@ -719,13 +722,34 @@ func buildChains(spec SyncSpec, cd *coder) (a, b, c *exh.Node, links, finat [][2
 				extra = 0 // the generators differ anyway; keep the slots dense
 			}
 		}
-		blk := nextBlock(b, peerFull, extra)
+		var txs []*blockchain.Transaction
+		if spec.WithTxs {
+			txs = []*blockchain.Transaction{exh.MakeTx(uint64(1000+i), 10+i%5), exh.MakeTx(uint64(2000+i), 3)}
+		}
+		blk := nextBlock(b, peerFull, extra, txs...)
 		if r := b.ProcessValidated(blk, false); !r.OK() {
 			err = fmt.Errorf("peer block %d: %v %s", i, r.Err, r.Panic)
 			return
 		}
 		link(blk)
 		fin(b, blk)
+	}
+	// the serving node once was on a longer branch and reverted it (more blocks than its block cache holds)
+	for i := 0; i < spec.PeerRevert; i++ {
+		blk := nextBlock(b, peerFull, 0)
+		if r := b.ProcessValidated(blk, false); !r.OK() {
+			err = fmt.Errorf("peer extra block %d: %v %s", i, r.Err, r.Panic)
+			return
+		}
+	}
+	for i := 0; i < spec.PeerRevert; i++ {
+		if r := b.DeleteBlock(b.Tip(), false); !r.OK() {
+			if strings.Contains(fmt.Sprint(r.Err), "already finalized") {
+				break // finality caught up: the branch cannot be reverted any further
+			}
+			err = fmt.Errorf("peer revert %d: %v %s", i, r.Err, r.Panic)
+			return
+		}
 	}
 	if c != nil {
 		for i := 0; i < spec.SenderOwn; i++ {
